@@ -279,3 +279,9 @@ package topologyaware
 //@   ensures[C09,C01] result2 == nil ==> result0 != nil && gr(result0).node == cs.node && gr(result0).exclusive.Size() == effFull(rq(r)) &&
 //@        cs.isolated.Equals(old(cs.isolated).Difference(gr(result0).exclusive)) && cs.sharable.Equals(old(cs.sharable).Difference(gr(result0).exclusive))
 //@   ensures[C09,C03] result2 == nil ==> cs.grantedShared == old(cs.grantedShared) + sharedPortion(gr(result0)) && cs.grantedReserved == old(cs.grantedReserved) + reservedPortion(gr(result0))
+//@   # C04 (policy side): the grant records exactly what the memory allocator committed - the zone it now assigns to
+//@   # the request, the amount that was asked of it (the memory request if set, else the limit) - and the zone
+//@   # changes of other containers reported by the commit are handed back unaltered
+//@   ensures[C04] result2 == nil ==> gr(result0).memZone == o.a.users[o.req.id] && o.req.id in o.a.users
+//@   ensures[C04] result2 == nil ==> gr(result0).memSize == (rq(r).memReq != 0 ? rq(r).memReq : rq(r).memLim) && gr(result0).memType == rq(r).memType
+//@   ensures[C04] result2 == nil ==> forall id string :: id != o.req.id ==> (id in result1) == (id in o.updates) && result1[id] == o.updates[id]
